@@ -59,6 +59,16 @@ class PinSignature(wiring.Signature):
             "oe": Out(unsigned(1)),
         })
 
+    def __eq__(self, other):
+        """Compare signatures.
+
+        A pin signature has no parameters: all pin signatures are equal.
+        """
+        return isinstance(other, PinSignature)
+
+    def __repr__(self):
+        return f"gpio.PinSignature({self.members!r})"
+
 
 class Peripheral(wiring.Component):
     class Mode(csr.Register, access="rw"):
